@@ -5,18 +5,25 @@ from evalutil import *
 
 ID = "C16"
 LEVEL = "other"
-MODULES = ["H3Proofs.Props.C16"]
+MODULES = ["H3Proofs.Props.C16", "H3Proofs.Props.C16Loops"]
 THEOREMS = "auto"
-TECHNIQUE = ("Lean 4 theorems about the combinatorial core (edge cancellation keeps every vertex balanced, so the "
-             "residual edges decompose into closed loops) + correspondence of the loop structure at Class II "
-             "resolutions (vertex identities from the proved-canonical vertex indexes); component count, winding, "
-             "area identity and allocation balance are a differential run on the real library")
+TECHNIQUE = ("Lean 4 theorems about the combinatorial core over exact vertex identities (edge cancellation keeps every "
+             "vertex balanced; the loop extraction of _vertexGraphToLinkedGeo then returns closed cycles that use every "
+             "residual edge exactly once, every loop edge being a boundary edge of an input cell — all cell lists, all "
+             "orders) + model/code correspondence of the loop structure (the model run over the canonical vertex indexes "
+             "of cellToVertex at Class II resolutions, compared with the loops the real function returns); component "
+             "count, winding, hole assignment, area identity and allocation balance are a differential run on the real library")
 ASSUMPTIONS = ["vertex matching by geoAlmostEqual / _hashVertex (floating point) is outside the model: the model uses "
-               "exact vertex identities; loops, winding and areas are evaluated on the real outputs",
+               "exact vertex identities (finding F4 lives in that gap); winding and areas are evaluated on the real outputs",
                "sets whose footprint reaches a pole are excluded (as the property does)"]
-NOT_PROVED = ["one polygon per connected component; outer CCW / holes CW assignment; enclosed area = sum of cell areas"]
-EXPLANATION = ("edge-cancellation / balance theorems; loop-structure correspondence; evaluator over disks, disks with "
-               "removed cells, islands in holes, several components, pentagons, antimeridian, all 16 resolutions")
+NOT_PROVED = ["one polygon per connected component; outer CCW / holes CW assignment (normalizeMultiPolygon: winding and "
+              "point-in-loop tests are floating-point geometry); enclosed area = sum of cell areas",
+              "Class III resolutions (distortion vertices on icosahedron edges are not vertex indexes): loop structure by "
+              "the evaluator only"]
+EXPLANATION = ("edge-cancellation balance + Euler-walk theorems (C16.vertexGraph_balanced, C16Loops.loops_of_cells): loops are "
+               "closed cycles partitioning the residual edges; loop-structure correspondence with the model at even resolutions; "
+               "evaluator over disks, disks with removed cells, islands in holes, several components, pentagon rings, pairs, "
+               "single cells, antimeridian, all 16 resolutions")
 
 
 def _sets(ctx, rng, tier):
@@ -73,6 +80,23 @@ def _sets(ctx, rng, tier):
                 cells.remove(o)
             rng.shuffle(cells)
             sets.append(("axis-seam", cells))
+    # small sets with a hole: the five neighbours of a pentagon without the pentagon (the only sets of fewer than
+    # six cells that enclose a hole), hexagon rings without their centre, two cells, single cells
+    for res in ((1, 2, 3, 6, 9, 12, 15) if tier == "quick" else range(1, 16)):
+        for bc in (rng.sample(gen.PENT, 3) if tier == "quick" else gen.PENT):
+            p = gen.mkcell(res, bc, [0] * res)
+            d = nb.bfs(p, 1)
+            if d:
+                ring = [c for c in d if c != p]
+                rng.shuffle(ring)
+                sets.append(("pent-ring", ring))
+        o = gen.rand_cell(rng, res=res)
+        d = nb.bfs(o, 1)
+        if d:
+            ring = [c for c in d if c != o]
+            sets.append(("hex-ring", ring))
+            sets.append(("pair", ring[:1] + [o]))
+            sets.append(("single", [o]))
     # bullseyes: centre + hollow ring at distance 3 + hollow ring at distance 5 (+ a separate island):
     # a hole nested inside two outer loops, next to outer loops that do not contain it
     for i in range(110 if tier == "quick" else 1500):
@@ -164,6 +188,7 @@ def evaluate(ctx, rng, tier, focus, budget, broken):
     out = ctx.c(ops, tag="mp")
     stats = {}
     nloops = 0
+    nmodel = 0
     for (kind, cells), o, a in zip(sets, ops, out):
         key = f"mp:{kind}:{gen.hx(min(cells))}:{len(cells)}"
         nviol0 = len(viol_)
@@ -256,6 +281,46 @@ def evaluate(ctx, rng, tier, focus, budget, broken):
                 viol_.append(viol("a polygon's enclosed area (outer loop minus its holes) differs from the area of its "
                                   "component's cells (holes attached to the wrong outer loop / edges lost)", o[:300],
                                   repr(carea_chart), repr(net), key=key))
+        # loop structure against the model (exact vertex identities = canonical vertex indexes; Class II resolutions,
+        # where a cell boundary is exactly its topological vertexes)
+        res_ = (cells[0] >> 52) & 15
+        if ctx.prep.model and res_ % 2 == 0 and len(cells) <= 400:
+            nmodel += 1
+            vo = ctx.c([f"c2vs {gen.hx(c)}" for c in cells], tag="mpv")
+            ids = sorted({int(x, 16) for a_ in vo if ok(a_) for x in a_.split()[2:] if x != "0"})
+            vl = ctx.c([f"v2ll {gen.hx(v)}" for v in ids], tag="mpvl")
+            vpos = [(v, (bits2f(a_.split()[1]), bits2f(a_.split()[2]))) for v, a_ in zip(ids, vl) if ok(a_)]
+            def vid(p):
+                best = min(vpos, key=lambda q: abs(q[1][0] - p[0]) + min(abs(q[1][1] - p[1]), 2 * math.pi - abs(q[1][1] - p[1])))
+                return best[0] if gc_dist(best[1], p) < 1e-10 else None
+            def canon(lp):
+                i = lp.index(min(lp))
+                return tuple(lp[i:] + lp[:i])
+            cl = []
+            bad = False
+            for loops in polys:
+                for lp in loops:
+                    idl = [vid(p) for p in lp]
+                    if None in idl:
+                        bad = True
+                    else:
+                        cl.append(canon(idl))
+            ma = ctx.m([f"mploops {len(cells)} " + " ".join(gen.hx(x) for x in cells)], tag="mpm")[0]
+            if ok(ma) and not bad:
+                t_ = ma.split()
+                pos_ = 2
+                ml = []
+                for _ in range(int(t_[1])):
+                    n_ = int(t_[pos_]); pos_ += 1
+                    ml.append(canon([int(x, 16) for x in t_[pos_:pos_ + n_]])); pos_ += n_
+                if sorted(ml) != sorted(cl):
+                    viol_.append(viol("the loops of cellsToLinkedMultiPolygon differ from the model's (edge cancellation + loop "
+                                      "extraction over canonical vertex indexes)", o[:300],
+                                      f"{len(ml)} loops of sizes {sorted(len(x) for x in ml)}",
+                                      f"{len(cl)} loops of sizes {sorted(len(x) for x in cl)}", key=key))
+            elif bad:
+                viol_.append(viol("a loop vertex is not a vertex (cellToVertex/vertexToLatLng) of an input cell", o[:300],
+                                  "cell vertexes", "unmatched", key=key))
         if len(viol_) > nviol0 and hash_split(bverts, (cells[0] >> 52) & 15, len(cells)):
             # attribute this set's violations to the recorded finding (missed edge cancellation by _hashVertex)
             for v in viol_[nviol0:]:
@@ -263,7 +328,7 @@ def evaluate(ctx, rng, tier, focus, budget, broken):
         if len([v for v in viol_ if v.get("key") != "hashVertex-split"]) >= 12:
             break
     return {"evaluations": len(ops), "violations": viol_[:20], "distinct": [o[:120] for o in ops],
-            "coverage": {"sets": sum(stats.values()), "by_kind": stats, "loops": nloops,
+            "coverage": {"sets": sum(stats.values()), "by_kind": stats, "loops": nloops, "sets_compared_with_model_loops": nmodel,
                          "resolutions": sorted({(c[0] >> 52) & 15 for _, c in sets})},
             "samples": [{"op": ops[0][:160], "c_answer": out[0][:160]}]}
 
